@@ -641,6 +641,13 @@ class ExprMixin:
         return res
 
 
+class GenExp:
+    """an unevaluated generator expression with the state it was written in"""
+
+    def __init__(self, node, st):
+        self.node, self.st = node, st
+
+
 class PathEnd(Exception):
     """The current path cannot continue (a definite failure was reported as an obligation)."""
 
@@ -691,6 +698,47 @@ class CompMixin:
         )
         self.last_flatten = (OUT, INN, IDX)
         return r
+
+    def ev_GeneratorExp(self, node, st):
+        """a generator expression is only supported as the argument of any()/all(): kept unevaluated"""
+        return GenExp(node, st)
+
+    def quantify_genexp(self, g, universal):
+        """all(e for x in L if c) -> forall i. c(i) -> e(i);  any(..) -> exists i. c(i) and e(i)   (nested any/all inside e work the same way)"""
+        node, st = g.node, g.st
+        if len(node.generators) != 1 or node.generators[0].is_async:
+            raise Unsupported("any/all over several generators")
+        gen = node.generators[0]
+        view = self.iter_view(self.ev(gen.iter, st), st)
+        if view[0] == "concrete":
+            rs = []
+            for x in view[1]:
+                sub = st.copy()
+                self.assign_target(gen.target, x, sub)
+                n_p = len(self.pending)
+                cs = [self.ev_truth(c, sub) for c in gen.ifs]
+                e = self.ev_truth(node.elt, sub)
+                if len(self.pending) != n_p:
+                    raise Unsupported("any/all whose element may raise")
+                cs = [z3.BoolVal(c) if isinstance(c, bool) else c for c in cs]
+                e = z3.BoolVal(e) if isinstance(e, bool) else e
+                rs.append(z3.Implies(z3.And(*cs), e) if universal else z3.And(*(cs + [e])) if cs else e)
+            if not rs:
+                return universal
+            return z3.simplify(z3.And(*rs) if universal else z3.Or(*rs))
+        _, n, elem = view
+        i = z3.Int(fresh_name("gi"))
+        sub = st.copy()
+        self.assign_target(gen.target, elem(i), sub)
+        n_p = len(self.pending)
+        cs = [self.ev_truth(c, sub) for c in gen.ifs]
+        e = self.ev_truth(node.elt, sub)
+        if len(self.pending) != n_p:
+            raise Unsupported("any/all whose element may raise")
+        cs = [z3.BoolVal(c) if isinstance(c, bool) else c for c in cs]
+        e = z3.BoolVal(e) if isinstance(e, bool) else e
+        rng = z3.And(0 <= i, i < n, *cs)
+        return z3.ForAll([i], z3.Implies(rng, e)) if universal else z3.Exists([i], z3.And(rng, e))
 
     def ev_ListComp(self, node, st):
         if len(node.generators) == 2:
